@@ -38,6 +38,38 @@ check("C14", "model_checking",
       "TLA+ state machine + TLC exhaustive check; spec behaviours replayed into the classes; trace validation by TLC",
       "DESIGN 3 C14")
 
+check("C11", "exploration",
+      "Seeded calls of the four annealing functions over every accepted model type (dict, labelled, Matrix with gaps, constant and "
+      "empty models), schedules ('linear', 'geometric', explicit incl. zeros and []), anneal_duration, temperature_range, initial "
+      "states, both orders, seeds and num_anneals in {-1,0,1,2,3} run against the extension rebuilt from /repo; spec/CheckAnneal.tla "
+      "(TLC) evaluates on every record: result count, state domain (Matrix: 0..max_index), value set, spin flag, value = model "
+      "evaluated at the state incl. offset (exact integers over a common denominator), best minimal, argument unchanged, no exception.",
+      "exploration of a seeded call space (1500 quick / 12000 thorough calls, <= 5 variables, degree <= 4); cross-kind Matrix inputs "
+      "(e.g. anneal_pubo(QUBOMatrix)) may return either 0..max_index or the occurring indices; trusted: TLC, the record encoder",
+      "real calls recorded, result contract written in TLA+ and evaluated by TLC on every record", "DESIGN 3 C11")
+check("C12", "model_checking",
+      "Design: spec/Metropolis.tla, TLC over every model on 3 spins with couplings/fields in a small set, every visiting order: the QUSO "
+      "kernel's incrementally maintained dE cache is exact (factor 2 instead of 4 is rejected), the PUSO kernel's subgraph formula is "
+      "exact, zero temperature never increases the energy. Code: seeded calls of anneal_quso / anneal_puso run against the rebuilt "
+      "extension with the env-guarded C step trace (hook H2); spec/MetropolisTrace.tla validates EVERY logged visit: position and "
+      "order, logged dE = exact energy change of the marshalled model in the spec state, Metropolis acceptance rule with the logged "
+      "variate, final state/value, API results = kernel results under a verified index->label witness, marshalled model = caller's "
+      "model, each call made twice with identical traces and results, results <= initial value at temperature zero.",
+      "the distributional claim is reduced to step-level conformance plus the ASSUMPTION that PCG32 output is i.i.d. uniform; "
+      "`below := u < exp(-dE/T)` is computed by the harness with the same libm; models <= 5 spins, degree <= 4",
+      "TLA+ model of the Metropolis step checked by TLC; C-level step traces from the real kernels validated against it by TLC",
+      "DESIGN 3 C12")
+check("C17", "exploration",
+      "Design: spec/Marshal.tla transcribes the front end's flattening and every buffer access of _canneal.c and both kernels; TLC "
+      "checks InBounds for every model the front end can marshal within the bounds (incl. stale models, gaps, no terms; the unguarded "
+      "index[0] write of the pinned code is rejected). Code: the C11 call space plus stale models runs as ONE sequence of calls in a "
+      "clang ASan+UBSan build of the current sources (LD_PRELOAD of the ASan runtime), then in reverse order in a fresh process; "
+      "spec/CheckMarshal.tla evaluates the access predicates on the REAL marshalled arguments and asserts no sanitizer report / crash "
+      "and results independent of the calls made before.",
+      "memory safety of the compiled code is observed by ASan/UBSan on the explored calls only; uninitialised reads are not covered",
+      "TLA+ access model checked by TLC; sanitizer-instrumented replay of the call space; real marshalled arguments checked against the model",
+      "DESIGN 3 C17")
+
 
 def build():
     props = [json.loads(l)["id"] for l in open(os.path.join(VERIF, "properties.jsonl"))]
